@@ -65,8 +65,8 @@ fn joint_names(naming: &str, tag: &str) -> [String; 6] {
         "kuka-a" => format!("${{prefix}}joint_a{}", i + 1),
         "literal-prefix-a" => format!("left_arm_joint_a{}", i + 1),      // a literal prefix that contains the tag letter
         "literal-prefix" => format!("leftJOINT_{}!", i + 1),            // the form used in the crate's own unit test
-        // a prefix with capital letters whose lower-case forms have another length in UTF-8 (U+1E9E, U+0130)
-        "unicode-prefix" => format!("\u{1E9E}\u{0130}_Arm_joint_{}", i + 1),
+        // a prefix with capital letters whose lower-case forms are longer in UTF-8 (U+0130: two bytes, three in lower case)
+        "unicode-prefix" => format!("\u{0130}\u{0130}_Arm_joint_{}", i + 1),
         _ => format!("{}_axis_{}", tag, i),
     })
 }
